@@ -652,14 +652,17 @@ func TestVerif_C09_CloseCrash(t *testing.T) {
 			rt.Fatalf("harness: %v", err)
 		}
 		cuts, _ := g4Cuts(rt, len(data), len(data))
-		index := uint64(10 * (len(before) + 5))
+		index, cterm := uint64(5), uint64(1)
+		if n := len(before); n > 0 {
+			index, cterm = before[n-1].Index+uint64(rapid.IntRange(1, 3).Draw(rt, "dindex")), before[n-1].Term
+		}
 
 		r := &vcrash.Recorder{Root: b.StoreDir, SaveDir: filepath.Join(root, "states"), Torn: true}
 		var newID string
 		var cerr error
 		lastWriteEv := 0
 		r.Run(func() {
-			sink, err := b.CreateSink(index, 1)
+			sink, err := b.CreateSink(index, cterm)
 			if err != nil {
 				cerr = err
 				return
